@@ -201,7 +201,20 @@ func NondetInt64(tag string) int64 {
 	return toBig(v).Int64()
 }
 func NondetInt(tag string) int                   { return int(NondetInt64(tag)) }
-func NondetRange(tag string, lo, hi int64) int64 { return NondetInt64(tag) }
+// NondetRange: an input the model left unconstrained is absent from the scenario; any value of the range
+// will do, the one nearest to zero is taken.
+func NondetRange(tag string, lo, hi int64) int64 {
+	if _, ok := rawVal(tag); !ok {
+		if lo > 0 {
+			return lo
+		}
+		if hi < 0 {
+			return hi
+		}
+		return 0
+	}
+	return NondetInt64(tag)
+}
 func NondetUint64(tag string) uint64 {
 	v, ok := rawVal(tag)
 	if !ok {
